@@ -42,10 +42,10 @@ except Exception:
 
 
 BASES = ["string", "integer", "uinteger", "boolean", "decimal", "DocumentUri", "URI"]  # a property of plain type `null` is outside the input discipline
-NAMES = ["label", "from", "type", "base64Data", "class", "workDoneToken", "utf8Length"]
+NAMES = ["label", "from", "type", "base64Data", "class", "workDoneToken", "utf8Length", "_meta", "baseURI", "isHTML", "content_type", "x"]
 DIRS = ["clientToServer", "serverToClient", "both"]
 OPT = [None, False, True]
-NSHAPE = 10
+NSHAPE = 14
 
 _SCHEMA = None
 
@@ -81,7 +81,17 @@ def mk_type(sel, b1, b2):
         return {"kind": "tuple", "items": [{"kind": "base", "name": "uinteger"}, {"kind": "base", "name": "uinteger"}]}
     if sel == 8:
         return {"kind": "array", "element": {"kind": "reference", "name": "Other"}}
-    return {"kind": "reference", "name": ["Kind", "OpenKind", "Level"][b2]}
+    if sel == 9:
+        return {"kind": "reference", "name": ["Kind", "OpenKind", "Level"][b2]}
+    # null one level down: a null-admitting union as array element / map value / member of an outer union / tuple item
+    inner = {"kind": "or", "items": [base1, {"kind": "base", "name": "null"}]}
+    if sel == 10:
+        return {"kind": "array", "element": inner}
+    if sel == 11:
+        return {"kind": "map", "key": {"kind": "base", "name": "string"}, "value": inner}
+    if sel == 12:
+        return {"kind": "or", "items": [{"kind": "reference", "name": "Other"}, {"kind": "array", "element": inner}] + ([base2] if b2 else [])}
+    return {"kind": "tuple", "items": [{"kind": "base", "name": "uinteger"}, inner]}
 
 
 def base_doc():
